@@ -127,3 +127,55 @@ Theorem C20_closed_after_any_close :
            (combine post (d_trace c (d_run c d_init (pre ++ [DClose])) post)).
 Proof. exact closed_after_any_close. Qed.
 Print Assumptions C20_closed_after_any_close.
+
+(* ---- the BlockWriteOpener write path ([dxop]: plain ops + XOpen / XWrite / XCommit on named writers) ---------
+   [dx_flatten [] ops] = the plain history an opener history amounts to: each FIRST commit of a writer is a
+   Put of the bytes written to it so far; opening, writing, abandoned writers and repeated commits vanish. *)
+
+(* the deferred writer behind any opener history is in the state of the flattened plain history: every C20
+   theorem above therefore speaks about opener histories through [dx_flatten] *)
+Theorem C20_opener_is_put :
+  forall (c : dcfg) (ops : list dxop) (xs : dxstate),
+    dx_st (dx_run c xs ops) = d_run c (dx_st xs) (dx_flatten (dx_bufs xs) ops).
+Proof. exact dx_run_flatten. Qed.
+Print Assumptions C20_opener_is_put.
+
+(* a first commit fires the callbacks, returns and writes exactly what Put(key, everything written) does *)
+Theorem C20_opener_commit_is_put :
+  forall (c : dcfg) (xs : dxstate) (h : N) (k buf : bytes),
+    buf_get h (dx_bufs xs) = Some (buf, false) ->
+    dx_st (fst (dx_step c xs (XCommit h k))) = fst (d_step c (dx_st xs) (DPut k buf)) /\
+    snd (dx_step c xs (XCommit h k)) = snd (d_step c (dx_st xs) (DPut k buf)).
+Proof. exact dx_commit_is_put. Qed.
+Print Assumptions C20_opener_commit_is_put.
+
+(* opening a writer, writing to it and re-using a committer leave the deferred writer, the output and the
+   file untouched and fire no callback: an uncommitted opener writes nothing *)
+Theorem C20_opener_uncommitted_writes_nothing :
+  forall (c : dcfg) (xs : dxstate) (op : dxop) (b' : dbufs),
+    dx_eff (dx_bufs xs) op = (None, b') ->
+    dx_st (fst (dx_step c xs op)) = dx_st xs /\ do_log (snd (dx_step c xs op)) = [] /\
+    d_bytes c (dx_st (fst (dx_step c xs op))) = d_bytes c (dx_st xs) /\
+    d_exists c (dx_st (fst (dx_step c xs op))) = d_exists c (dx_st xs).
+Proof. exact dx_idle_step. Qed.
+Print Assumptions C20_opener_uncommitted_writes_nothing.
+
+(* lazy and identical for opener histories *)
+Theorem C20_opener_lazy :
+  forall (c : dcfg) (ops : list dxop),
+    d_puts (dx_flatten [] ops) = [] ->
+    d_bytes c (dx_st (dx_run c dx_init ops)) = pre_bytes c /\
+    d_exists c (dx_st (dx_run c dx_init ops)) = pre_exists c.
+Proof. exact dx_lazy. Qed.
+Print Assumptions C20_opener_lazy.
+
+Theorem C20_opener_identical :
+  forall (c : dcfg) (ops : list dxop) (s : wstate),
+    d_inner (dx_st (dx_run c dx_init ops)) = Some s ->
+    exists s0 : wstate,
+      open_new (dc_kind c) (eff_opts c) (dc_nilroots c) (dc_roots c) (dc_faults c) = Ok s0 /\
+      s = (let s1 := fold_left (fun s kd => fst (st_put s (fst kd) (snd kd))) (d_puts (dx_flatten [] ops)) s0 in
+           if existsb is_close (dx_flatten [] ops) then fst (st_finalize s1) else s1) /\
+      d_bytes c (dx_st (dx_run c dx_init ops)) = ws_file s.
+Proof. exact dx_identical. Qed.
+Print Assumptions C20_opener_identical.
